@@ -84,6 +84,27 @@ ADDENDA5 = {
 for _k, _v in ADDENDA5.items():
     ADDENDA[_k] = ADDENDA.get(_k, '') + _v
 
+ADDENDA6 = {
+    'C01': '  One frame object verified, given new values in place and discovered / verified again.',
+    'C02': '  Frames of two or three different columns, each with part of its constraints (fields are independent).',
+    'C04': '  One-option pairs of option sets at every entry point; a preprocess function that decides the verdict.',
+    'C06': '  rownumber_is_index=False (RowNumber column of the file-based entry points).',
+    'C07': '  Float bounds of rich frames incl. infinities must be present and attained.',
+    'C08': '  Reals needing 17 digits; breaking rows one representable number beyond the extreme.',
+    'C09': '  The set as discovered in memory is the set written (known findings D38, D24 facet); decomposed unicode field names.',
+    'C10': '  CSV actual against parquet reference; text references named *.ps / *.html / *.eps.',
+    'C11': '  A wildcard that matches nothing; outputs in ref*-named sub-directories.',
+    'C12': '  A wildcard with a match left over from an earlier run; perturbation kinds recorded in the evidence.',
+    'C13': '  Strings beyond 99 fragments with different lengths; sampling with rare extra-letter members.',
+    'C14': '  Two-step entry point (Extractor(extract=False) ... extract()) with the global generator used in between; use_sampling=False with explicit thresholds.',
+    'C15': '  Binary pairs behind a common prefix of thousands of bytes (invariant BinaryShift); an earlier failure in the same temporary directory.',
+    'C16': '  Integers beyond 2^53 next to nulls; column names contained in earlier ones.',
+    'C17': '  Missing constraints file and report flags through the real command.',
+    'C18': '  Sampling switched off with 4300 distinct examples; expressions ending in a literal dollar.',
+}
+for _k, _v in ADDENDA6.items():
+    ADDENDA[_k] = ADDENDA.get(_k, '') + _v
+
 
 def register(claim):
     claim('C10',
